@@ -71,7 +71,7 @@ let model variant inp =
   let (lim, mode, ops) = parse_input inp in
   show_run (M.run_Z variant (z_of_int (mode_of mode)) lim ops)
 
-let eval inp = model M.current_variant inp
+let is_big inp = String.length inp > 1 && inp.[0] = 'B'
 
 (* ---- the property on the implementation's output ---- *)
 
@@ -113,7 +113,299 @@ let zeq a b = (a : M.z) = b
 (* Z order, structurally (no use of the model's arithmetic) *)
 let zle a b = match M.Z.compare a b with M.Gt -> false | _ -> true
 
+
+(* ---- B lines: big caches, macro operations, digests (harness/cmd/cachetrace/scale.go) ---- *)
+
+let perm_of n seed =
+  let p = Array.init n (fun i -> i) in
+  let x = ref (((seed mod 2147483648) + 2147483648) mod 2147483648) in
+  for i = n - 1 downto 1 do
+    x := (!x * 1103515245 + 12345) mod 2147483648;
+    let j = (!x lsr 8) mod (i + 1) in
+    let t = p.(i) in p.(i) <- p.(j); p.(j) <- t
+  done;
+  p
+
+let max_seq = 1 lsl 16
+
+let keys_of s =
+  match String.split_on_char ',' s with
+  | "e" :: ks -> List.map int_of_string ks
+  | [pat; lo; step; n; take; seed] ->
+    let lo = int_of_string lo and step = int_of_string step and n = int_of_string n
+    and take = int_of_string take and seed = int_of_string seed in
+    if n < 0 || n > max_seq || take < 0 || take > n then failwith "bad key sequence";
+    (match pat with
+     | "a" -> List.init take (fun j -> lo + step * j)
+     | "d" -> List.init take (fun j -> lo + step * (n - 1 - j))
+     | "r" -> let p = perm_of n seed in List.init take (fun j -> lo + step * p.(j))
+     | _ -> failwith "bad key pattern")
+  | _ -> failwith "bad key sequence"
+
+(* a call of a B line, with OCaml ints *)
+type bop = BPut of int * int | BGet of int | BHas of int | BRemove of int | BClear | BLen | BSize
+
+let rec expand_macro m : bop list =
+  let rest = String.sub m 1 (String.length m - 1) in
+  match m.[0] with
+  | 'c' -> [BClear] | 'l' -> [BLen] | 's' -> [BSize]
+  | 'g' -> List.map (fun k -> BGet k) (keys_of rest)
+  | 'h' -> List.map (fun k -> BHas k) (keys_of rest)
+  | 'r' -> List.map (fun k -> BRemove k) (keys_of rest)
+  | 'p' ->
+    (match String.split_on_char ':' rest with
+     | [ks; vs] ->
+       (match List.map int_of_string (String.split_on_char ',' vs) with
+        | [vlo; vstep; vmod] ->
+          let vmod = if vmod < 1 then 1 else vmod in
+          List.mapi (fun j k -> BPut (k, vlo + (vstep * j) mod vmod)) (keys_of ks)
+        | _ -> failwith "bad value sequence")
+     | _ -> failwith "bad put macro")
+  | 'i' ->
+    let parts = List.map (fun p -> Array.of_list (expand_macro p)) (String.split_on_char '+' rest) in
+    let longest = List.fold_left (fun a p -> max a (Array.length p)) 0 parts in
+    let out = ref [] in
+    for j = 0 to longest - 1 do
+      List.iter (fun p -> if j < Array.length p then out := p.(j) :: !out) parts
+    done;
+    List.rev !out
+  | _ -> failwith "bad macro"
+
+let op_of_bop = function
+  | BPut (k, v) -> M.OPut (z_of_int k, z_of_int v)
+  | BGet k -> M.OGet (z_of_int k)
+  | BHas k -> M.OHas (z_of_int k)
+  | BRemove k -> M.ORemove (z_of_int k)
+  | BClear -> M.OClear | BLen -> M.OLen | BSize -> M.OSize
+
+let parse_big inp =
+  match words inp with
+  | ["B"; lim; mode] -> (z_of_string lim, mode, [])
+  | ["B"; lim; mode; ms] -> (z_of_string lim, mode, if ms = "." then [] else String.split_on_char ';' ms)
+  | _ -> failwith "bad input"
+
+(* digests, identical to the harness *)
+let feed (a, b) v =
+  let x = if v < 0 then (-v) + (1 lsl 20) else v in
+  let x = x mod (1 lsl 30) in
+  ((a * 31337 + x + 7) mod 2147483647, (b * 65599 + x + 13) mod 2147483629)
+let show_hash (a, b) = Printf.sprintf "%x.%x" a b
+
+(* sign, then limbs of 30, 30 and 4 bits of the magnitude *)
+let feed_big h (z : M.z) =
+  let l = [| 0; 0; 0 |] in
+  let set i = let w = min 2 (i / 30) in l.(w) <- l.(w) lor (1 lsl (i - 30 * w)) in
+  let rec go i = function
+    | M.XH -> set i
+    | M.XO q -> go (i + 1) q
+    | M.XI q -> set i; go (i + 1) q in
+  let sign = (match z with M.Z0 -> 0 | M.Zpos p -> go 0 p; 0 | M.Zneg p -> go 0 p; 1) in
+  feed (feed (feed (feed h sign) l.(0)) l.(1)) l.(2)
+
+let feed_out h = function
+  | M.RBool b -> feed h (if b then 1 else 0)
+  | M.RGet (v, ok) -> feed (feed h (if ok then 1 else 0)) (int_of_z v)
+  | M.RUnit -> feed h 2
+  | M.RNum n -> feed_big h n
+let out_true = function M.RBool b -> b | M.RGet (_, ok) -> ok | _ -> false
+
+let feed_log h log = List.fold_left (fun h (k, v) -> feed (feed h (int_of_z k)) (int_of_z v)) h log
+let feed_log_spec h is_clear log =
+  if not is_clear then feed_log h log else begin
+    let s1 = ref 0 and s2 = ref 0 in
+    List.iter (fun (k, v) ->
+      let k = int_of_z k mod (1 lsl 30) and v = int_of_z v mod (1 lsl 30) in
+      s1 := (!s1 + (k * 1000003 + v * 7 + 1) mod 2147483647) mod 2147483647;
+      s2 := (!s2 + ((k + 1) * (v + 3)) mod 2147483629) mod 2147483629) log;
+    feed (feed h !s1) !s2
+  end
+
+(* the public part of one macro's observation: what the reference must reproduce *)
+type pub = { trues : int; res : int * int; nev : int; sp : int * int; plen : string; psize : string }
+let show_pub p = Printf.sprintf "trues=%d results=%s callbacks=%d (digest %s) Len=%s Size=%s" p.trues (show_hash p.res) p.nev (show_hash p.sp) p.plen p.psize
+
+let state_digest (c : (M.z, M.z) M.cache) =
+  let s = c.M.store in
+  let hh = List.fold_left (fun h (e : (M.z, M.z) M.prio) -> feed (feed h (int_of_z e.M.lastAccess)) (int_of_z e.M.key)) (0, 0) s.M.access.M.data in
+  let pres = List.sort compare (List.map (fun (k, p) -> (int_of_z k, int_of_z p)) s.M.present) in
+  let ph = List.fold_left (fun h (k, p) -> feed (feed h k) p) (0, 0) pres in
+  Printf.sprintf "%s,%s,%s" (show_hash hh) (show_hash ph) (string_of_z s.M.clock)
+
+(* the model on a B line: one observation string per macro, the public parts, and whether the F2
+   trigger never fired (CacheModel.op_safe before every call) *)
+let run_big variant inp : string list * pub list * bool =
+  let (zlim, mode, macros) = parse_big inp in
+  let sizeOf = M.size_mode (z_of_int (mode_of mode)) in
+  match M.cache_new zlim with
+  | M.CPanic _ | M.CFuel -> (["NEWPANIC"], [], true)
+  | M.COk c0 ->
+    let c = ref c0 and safe = ref true and obs = ref [] and pubs = ref [] in
+    (try
+      List.iter (fun m ->
+        let res = ref (0, 0) and ev = ref (0, 0) and sp = ref (0, 0) and trues = ref 0 and nev = ref 0 in
+        List.iteri (fun i b ->
+          let o = op_of_bop b in
+          if !safe && not (M.op_safe M.Z.eqb sizeOf !c o) then safe := false;
+          match M.step M.Z.eqb M.Z0 M.Z0 sizeOf variant !c o with
+          | M.COk (c', (r, log)) ->
+            c := c';
+            if out_true r then incr trues;
+            res := feed_out !res r;
+            res := feed !res (List.length log);
+            res := feed_big (feed_big !res (M.cache_len c')) (M.cache_size c');
+            nev := !nev + List.length log;
+            ev := feed_log !ev log;
+            sp := feed_log_spec !sp (b = BClear) log
+          | M.CPanic k -> obs := Printf.sprintf "%s@%d" (show_panic k) i :: !obs; raise Exit
+          | M.CFuel -> obs := "FUEL" :: !obs; raise Exit) (expand_macro m);
+        let ln = string_of_z (M.cache_len !c) and sz = string_of_z (M.cache_size !c) in
+        pubs := { trues = !trues; res = !res; nev = !nev; sp = !sp; plen = ln; psize = sz } :: !pubs;
+        obs := Printf.sprintf "%d,%s,%d,%s,%s/%s/%s/%s" !trues (show_hash !res) !nev (show_hash !ev) (show_hash !sp) ln sz (state_digest !c) :: !obs) macros
+    with Exit -> ());
+    (List.rev !obs, List.rev !pubs, !safe)
+
+(* the last B line evaluated with the current variant: the spec's attribution of a failure to the
+   known finding needs the pinned model's run of the same line, which is this one when the source is
+   the pinned one *)
+let last_big : (string * (string list * pub list * bool)) option ref = ref None
+let eval_big inp =
+  let r = run_big M.current_variant inp in
+  last_big := Some (inp, r);
+  let (obs, _, _) = r in String.concat ";" obs
+
+(* The reference on a B line.  Two of them, run in lockstep:
+   - CacheSpec.s2_step, the reference LRU the theorems are about (extracted).  It recomputes the sum
+     of the sizes for every eviction, which with sizes near 2^62 and thousands of entries takes
+     seconds per line, so it runs only until the cache first holds [coq_ref_upto] entries;
+   - a direct definition of the same LRU cache with a hash table and a recency-ordered map
+     (below), which runs always; while both run, every call's result and callback log must be the
+     same in both (a disagreement is reported as a defect of the driver, never swallowed).
+   Len and Size after every call come from the direct reference (count and running sum) and are
+   compared with length / CacheSpec.total of the extracted reference's state at the end of every
+   macro while that one runs. *)
+let coq_ref_upto = 1100
+
+module IMap = Map.Make (Int)
+type fast_ref = {
+  tbl : (int, int * int) Hashtbl.t;      (* key -> (recency stamp, value) *)
+  mutable order : int IMap.t;            (* stamp -> key, least recently used first *)
+  mutable stamp : int;
+  mutable ftotal : M.z;
+}
+let fast_new () = { tbl = Hashtbl.create 64; order = IMap.empty; stamp = 0; ftotal = M.Z0 }
+let fast_drop f sizeOf k =
+  let (st, v) = Hashtbl.find f.tbl k in
+  Hashtbl.remove f.tbl k; f.order <- IMap.remove st f.order;
+  f.ftotal <- M.Z.sub f.ftotal (sizeOf (z_of_int v)); v
+let fast_add f sizeOf k v =
+  f.stamp <- f.stamp + 1;
+  Hashtbl.replace f.tbl k (f.stamp, v); f.order <- IMap.add f.stamp k f.order;
+  f.ftotal <- M.Z.add f.ftotal (sizeOf (z_of_int v))
+(* one call: result and callback log, as (out, (key, value) list) with OCaml ints *)
+let fast_step f sizeOf zlim (b : bop) : (M.z M.out) * (int * int) list =
+  match b with
+  | BPut (k, v) ->
+    let vs = sizeOf (z_of_int v) in
+    if not (zle vs zlim) then (M.RBool false, [])                 (* refused: nothing changes *)
+    else begin
+      let log = ref [] in
+      if Hashtbl.mem f.tbl k then (let old = fast_drop f sizeOf k in log := [(k, old)]);   (* replaced *)
+      (* evict from the least recently used end while the value does not fit *)
+      while not (IMap.is_empty f.order) && not (zle (M.Z.add f.ftotal vs) zlim) do
+        let (_, k') = IMap.min_binding f.order in
+        let v' = fast_drop f sizeOf k' in log := (k', v') :: !log
+      done;
+      fast_add f sizeOf k v;
+      (M.RBool true, List.rev !log)
+    end
+  | BGet k ->
+    (match Hashtbl.find_opt f.tbl k with
+     | Some (_, v) -> ignore (fast_drop f sizeOf k); fast_add f sizeOf k v; (M.RGet (z_of_int v, true), [])   (* a use *)
+     | None -> (M.RGet (M.Z0, false), []))
+  | BHas k -> (M.RBool (Hashtbl.mem f.tbl k), [])                  (* not a use *)
+  | BRemove k ->
+    if Hashtbl.mem f.tbl k then (let v = fast_drop f sizeOf k in (M.RBool true, [(k, v)])) else (M.RBool false, [])
+  | BClear ->
+    let log = List.map (fun (_, k) -> (k, snd (Hashtbl.find f.tbl k))) (IMap.bindings f.order) in
+    Hashtbl.reset f.tbl; f.order <- IMap.empty; f.ftotal <- M.Z0;
+    (M.RUnit, log)
+  | BLen -> (M.RNum (z_of_int (Hashtbl.length f.tbl)), [])
+  | BSize -> (M.RNum f.ftotal, [])
+
+let reference_big zlim sizeOf macros : pub list =
+  let f = fast_new () in
+  let coq : (M.z * M.z) list option ref = ref (Some []) in
+  List.map (fun m ->
+    let res = ref (0, 0) and sp = ref (0, 0) and trues = ref 0 and nev = ref 0 in
+    List.iter (fun b ->
+      let (r, ilog) = fast_step f sizeOf zlim b in
+      let log = List.map (fun (k, v) -> (z_of_int k, z_of_int v)) ilog in
+      (match !coq with
+       | Some l ->
+         let (l', (r', log')) = M.s2_step M.Z.eqb M.Z0 sizeOf zlim l (op_of_bop b) in
+         if r' <> r || log' <> log then failwith "the driver's two references disagree";
+         coq := if List.length l' < coq_ref_upto then Some l' else None
+       | None -> ());
+      if not (zle f.ftotal zlim) then failwith "the reference exceeds the limit";
+      if out_true r then incr trues;
+      res := feed_out !res r;
+      res := feed !res (List.length log);
+      res := feed_big (feed_big !res (z_of_int (Hashtbl.length f.tbl))) f.ftotal;
+      nev := !nev + List.length log;
+      sp := feed_log_spec !sp (b = BClear) log) (expand_macro m);
+    (match !coq with
+     | Some l -> if List.length l <> Hashtbl.length f.tbl || M.total sizeOf l <> f.ftotal then failwith "reference accounting"
+     | None -> ());
+    { trues = !trues; res = !res; nev = !nev; sp = !sp; plen = string_of_int (Hashtbl.length f.tbl); psize = string_of_z f.ftotal }) macros
+
+let parse_pub s =
+  match String.split_on_char '/' s with
+  | f :: ln :: sz :: _ ->
+    (match String.split_on_char ',' f with
+     | [t; r; n; _; sp] ->
+       let h x = Scanf.sscanf x "%x.%x" (fun a b -> (a, b)) in
+       { trues = int_of_string t; res = h r; nev = int_of_string n; sp = h sp; plen = ln; psize = sz }
+     | _ -> failwith "bad observation")
+  | _ -> failwith "bad observation"
+
+let spec_big inp out =
+  (* a line the harness could not read ("?") or whose macros do not expand is not a case (the
+     shrinker of bin/check produces such lines when it drops list items) *)
+  let parsed = (try let (z, m, ms) = parse_big inp in ignore (List.map expand_macro ms); Some (z, m, ms) with _ -> None) in
+  if out = "?" || parsed = None then None else
+  let (zlim, mode, macros) = (match parsed with Some x -> x | None -> failwith "unreachable") in
+  if not (zpos zlim) then (if out <> "NEWPANIC" then Some "cache.New with limit <= 0 did not panic" else None) else
+  let obs_s = if out = "" then [] else String.split_on_char ';' out in
+  if List.exists (fun s -> (String.length s >= 5 && String.sub s 0 5 = "PANIC") || s = "NEWPANIC") obs_s then
+    Some "panic on a history with limit > 0"
+  else if out = "hang" then Some "hang"
+  else if List.length obs_s <> List.length macros then Some "wrong number of observations"
+  else begin
+    let negative = mode <> "u" && mode.[0] = 'n' in
+    let sizeOf = M.size_mode (z_of_int (mode_of mode)) in
+    let want = reference_big zlim sizeOf macros in
+    let got = List.map parse_pub obs_s in
+    match first_diff 0 got want with
+    | None -> None
+    | Some i ->
+      let what = Printf.sprintf "macro #%d %s: %s; the reference LRU gives %s" i (List.nth macros i) (show_pub (List.nth got i)) (show_pub (List.nth want i)) in
+      (* known finding F2, by the rule of the H lines: the pinned model reproduces this very output
+         (digests of the internals included), the repaired model gives the reference's answers, the
+         trigger fires in the pinned model, sizes are non-negative *)
+      let pinned_run =
+        (match !last_big with
+         | Some (i', r) when i' = inp && M.current_variant = M.pinned -> Some r
+         | _ -> (try Some (run_big M.pinned inp) with _ -> None)) in
+      let pinned_same, trigger_fired =
+        (match pinned_run with Some (o, _, safe) -> (String.concat ";" o = out, not safe) | None -> (false, false)) in
+      let repaired_ok = pinned_same && trigger_fired && (try let (_, p, _) = run_big M.repaired inp in p = want with _ -> false) in
+      Some (what ^ (if pinned_same && repaired_ok && trigger_fired && not negative then " known=F2" else ""))
+  end
+
+let eval inp = if is_big inp then eval_big inp else model M.current_variant inp
+
 let spec prop inp out =
+  if is_big inp then (if prop = "C08" || prop = "C09" then spec_big inp out else None) else
   (* C09: the sequential object of the linearizability claim is checked against the policy-agnostic
      reference only (the eviction order, known finding F2, is C08's business) *)
   if prop <> "C08" && prop <> "C09" then None else
